@@ -18,7 +18,9 @@ const DLEN: u64 = 0x1000;
 pub enum Op {
     Pipe,
     Write { pipe: usize, n: u64, seed: u64 },
-    Read { pipe: usize, n: u64 },
+    Read { pipe: usize, n: u64, #[serde(default)] bad_buf: u8 },
+    /// write on a read end (true) / read on a write end (false): no verdict is demanded, but the streams must not change
+    WrongEnd { pipe: usize, write: bool, n: u64 },
     /// read (false) / write (true) on a descriptor that is not a pipe end
     Foreign { write: bool, fd: u64, n: u64, #[serde(default)] bad_buf: u8 },
 }
@@ -55,10 +57,11 @@ impl Property for C14 {
                 3 => 300,
                 _ => t.below(301),
             };
-            ops.push(match t.weighted(&[8, 38, 40, 14]) {
+            ops.push(match t.weighted(&[8, 36, 38, 13, 5]) {
                 0 => Op::Pipe,
                 1 => Op::Write { pipe: t.below(4) as usize, n, seed: t.raw() },
-                2 => Op::Read { pipe: t.below(4) as usize, n },
+                2 => Op::Read { pipe: t.below(4) as usize, n, bad_buf: t.weighted(&[85, 5, 5, 5]) as u8 },
+                4 => Op::WrongEnd { pipe: t.below(4) as usize, write: t.bool(), n },
                 _ => Op::Foreign { write: t.bool(), fd: t.pick(&[0u64, 1, 2, 3, 5, 100, 1023]), n, bad_buf: t.weighted(&[60, 15, 15, 10]) as u8 },
             });
         }
@@ -170,7 +173,48 @@ impl Property for C14 {
                     }
                     last_pipe_used = Some(pi);
                 }
-                Op::Read { pipe, n: want } => {
+                Op::WrongEnd { pipe, write, n: len } => {
+                    let pi = pipe % pipes.len();
+                    classes.push("wrong-end-call");
+                    ax.mem_write_bytes(buf, &vec![0x77; *len as usize + 16]).unwrap();
+                    let fd = if *write { pipes[pi].0 } else { pipes[pi].1 };
+                    let (r, _ev) = sys(&mut ax, if *write { 1 } else { 0 }, fd, buf, *len);
+                    if let Api::Panic(p) = &r {
+                        fail(&mut out, &format!("wrong-end|{}", p.signature()), format!("{} crashed: {}", desc, r.short()));
+                        return out;
+                    }
+                    // whatever the answer: the bytes of a write on a *read* end were not written to the write end and must
+                    // never show up in the stream; a read on a *write* end must not consume the stream (checked by the
+                    // later reads and the final drain against the unchanged model)
+                }
+                Op::Read { pipe, n: want, bad_buf } if *bad_buf != 0 => {
+                    // destination that cannot take the data: past the end of its area, unmapped, or the code area
+                    let pi = pipe % pipes.len();
+                    classes.push("read-into-awkward-buffer");
+                    let b = match bad_buf {
+                        1 => DATA + DLEN - 2,
+                        2 => 0x7777_0000,
+                        _ => CODE_AT,
+                    };
+                    let avail = pipes[pi].2.len() as u64;
+                    let (r, _ev) = sys(&mut ax, 0, pipes[pi].0, b, *want);
+                    match r {
+                        Api::Panic(p) => {
+                            fail(&mut out, &format!("read|{}", p.signature()), format!("{} crashed: {} at {}", desc, p.message, p.location));
+                            return out;
+                        }
+                        Api::Err(_) => {} // refused: nothing was delivered, so nothing may be consumed (the model keeps everything)
+                        Api::Ok(k) => {
+                            // delivered k bytes (possible when the data fits before the end of the area): consume them
+                            if k > *want || k > avail {
+                                fail(&mut out, "read|returned-more-than-requested-or-available", format!("{}: returned {}", desc, k));
+                                return out;
+                            }
+                            pipes[pi].2.drain(..k as usize);
+                        }
+                    }
+                }
+                Op::Read { pipe, n: want, .. } => {
                     let pi = pipe % pipes.len();
                     ax.mem_write_bytes(buf, &vec![0xaa; *want as usize + 16]).unwrap();
                     let (r, ev) = sys(&mut ax, 0, pipes[pi].0, buf, *want);
@@ -300,12 +344,12 @@ impl Property for C14 {
     }
 
     fn rule(&self) -> String {
-        "cases: histories of 1–39 syscalls over pipe(), write(fd,buf,n), read(fd,buf,n) on 1–4 pipes and on non-pipe descriptors {0,1,2,3,5,100,1023} (40 % of them with a buffer that runs past its area, is unmapped or NULL), n ∈ {0,1,<8,300,uniform ≤300}, with a user SYSCALL hook registered after handle_syscalls([Pipe]); one VecDeque per pipe is the model: count ≤ requested and ≤ available, ≥1 when both positive, exactly the next bytes, buffer beyond the count untouched, pipe calls never reach the user hook, foreign calls reach it exactly once with registers intact, every pipe is drained at the end and compared; non-trivial = write→partial read→read on one pipe, or two pipes interleaved; distinct by hash(history)".into()
+        "cases: histories of 1–39 syscalls over pipe(), write(fd,buf,n), read(fd,buf,n) on 1–4 pipes and on non-pipe descriptors {0,1,2,3,5,100,1023} (40 % of them with a buffer that runs past its area, is unmapped or NULL), n ∈ {0,1,<8,300,uniform ≤300}, 15 % of the pipe reads into a destination that cannot take the data (a refused read must not consume), 5 % calls on the wrong end of a pipe; with a user SYSCALL hook registered after handle_syscalls([Pipe]); one VecDeque per pipe is the model: count ≤ requested and ≤ available, ≥1 when both positive, exactly the next bytes, buffer beyond the count untouched, pipe calls never reach the user hook, foreign calls reach it exactly once with registers intact, every pipe is drained at the end and compared; non-trivial = write→partial read→read on one pipe, or two pipes interleaved; distinct by hash(history)".into()
     }
     fn required_classes(&self, _tier: Tier) -> Vec<String> {
-        ["write-partial-read-read", "two-pipes-interleaved", "foreign-descriptor", "foreign-descriptor-awkward-buffer", "short-read", "full-read", "read-empty"].iter().map(|s| s.to_string()).collect()
+        ["write-partial-read-read", "two-pipes-interleaved", "foreign-descriptor", "foreign-descriptor-awkward-buffer", "short-read", "full-read", "read-empty", "read-into-awkward-buffer", "wrong-end-call"].iter().map(|s| s.to_string()).collect()
     }
     fn assumptions(&self) -> Vec<String> {
-        vec!["descriptor values are never compared; the 16 bytes written by pipe() are decoded as two u64, or two i32 if the upper half was left untouched".into(), "a run that ends in the handler's own 'Duplicate … end for pipe' error (random descriptor collision) is discarded and counted".into(), "calls on the wrong end of a pipe are outside the stated domain and are not generated".into()]
+        vec!["descriptor values are never compared; the 16 bytes written by pipe() are decoded as two u64, or two i32 if the upper half was left untouched".into(), "a run that ends in the handler's own 'Duplicate … end for pipe' error (random descriptor collision) is discarded and counted".into(), "calls on the wrong end of a pipe get no verdict of their own (the statement does not define them); they are generated only to check that they neither inject bytes into a stream nor consume from it".into()]
     }
 }
